@@ -446,23 +446,25 @@ Definition u_iter_mut_over_range (sb eb : bound) : M iter :=
   d <- usub l en;;
   u_iter_mut_advance_back_by it d.
 
+(* slice_take_first_mut(&mut self.right) works on the field in place: when it
+   returns None, split_off_first_mut has left `&mut []` in the field *)
 Definition u_iter_mut_next (it : iter) : iter * option Z :=
   match u_slice_take_first_mut (it_right it) with
   | (r, Some p) => (mkI r (it_left it), Some p)
-  | (_, None) =>
+  | (r, None) =>
     match u_slice_take_first_mut (it_left it) with
-    | (l, Some p) => (mkI (it_right it) l, Some p)
-    | (_, None) => (it, None)
+    | (l, Some p) => (mkI r l, Some p)
+    | (l, None) => (mkI r l, None)
     end
   end.
 
 Definition u_iter_mut_next_back (it : iter) : iter * option Z :=
   match u_slice_take_last_mut (it_left it) with
   | (l, Some p) => (mkI (it_right it) l, Some p)
-  | (_, None) =>
+  | (l, None) =>
     match u_slice_take_last_mut (it_right it) with
-    | (r, Some p) => (mkI r (it_left it), Some p)
-    | (_, None) => (it, None)
+    | (r, Some p) => (mkI r l, Some p)
+    | (r, None) => (mkI r l, None)
     end
   end.
 
